@@ -281,7 +281,9 @@ pub fn run_encnormal(rep: &mut Report, rng: &mut Rng, n: u64, max_len: usize) {
             _ => r.range(6_000, 40_000) as usize,
         }.min(max_len);
         let kind = r.below(7);
-        let data = mf_data(&mut r, kind, dict as usize, len);
+        let mut data = mf_data(&mut r, kind, dict as usize, len);
+        // far-repeat data needs more than a dictionary's worth of input; allowed where that stays within 8x the budget
+        data.truncate(if dict as usize + 600 <= 8 * max_len { max_len.max(dict as usize + 600) } else { max_len });
         let lz = crate::codec::LzOpts { dict, lc, lp, pb, normal: true, nice, bt4, depth, preset: None };
         let (_, parts) = gen_partition(&mut r, data.len());
         let detail = || json!({"stratum": "encnormal", "opts": lz.json(), "data_kind": kind, "data_len": data.len(), "data_fnv": fnv(&data), "data_hex": if data.len() <= 300 { hex(&data) } else { String::new() }});
